@@ -119,6 +119,8 @@ var c06Fill = []byte{0x00, 0xFF, 0x5A, 0xA5}
 func runC06(r *engine.Run) {
 	r.Rule = "E1 enumeration of byte strings per structure, decoded by the library and by the independent bit-field table (mc/spec/mac.go), and of the field tuples so obtained re-encoded by both: all 256 header bytes (MHDR, FCtrl, DLSettings, Redundancy), all 65536 ChMask values, every byte string of every MAC payload of <= 2 bytes, all 2^24 BeaconFreqReq strings, per-position sweeps (each byte all 256 x the others over {00,FF,5A,A5}) of 4/5-byte payloads (thorough: all byte pairs x fillers, all 2^24 NewChannelReq frequency codes), all 256 CIDs x 2 directions in the registry, CFList and join payload layouts with position-distinct fillers and per-position sweeps. Non-trivial: a byte string whose decode was compared field by field and whose field tuple was re-encoded and compared; distinct by construction."
 	frameHistory(r, 2)
+	// headers kept by plain assignment (per-device state) while their variable decodes the next frame
+	keptCopyParts(r, "kept-copy", reuseTypesNamed("lorawan.FHDR", "lorawan.MACPayload", "lorawan.MHDR", "lorawan.FCtrl", "lorawan.CFList", "lorawan.PHYPayload"))
 	r.Assume("RFU handling is judged only where every revision agrees: DutyCycleReq bytes 16..254 and NewChannelReq frequency codes >= 12000000 (the library's 2.4 GHz extension) are decoded but not judged; DLSettings bit 7 inside RXParamSetupReq is RFU and the library's extra OptNeg field there is not judged")
 	if err := spec.CheckTables(); err != nil {
 		r.HarnessError("%v", err)
